@@ -23,12 +23,14 @@ from harness.framework import run_check, MachineryError, VERIF
 SPEC = os.path.join(VERIF, 'specs', 'Lifecycle')
 INVS = ['CloseOnceAndLast', 'LegalOrder', 'NoChannelLeft',
         'AllWaitersResolved', 'MadeImpliesLost', 'CreateDecided']
+# with flow control in the model (Win > 0)
+FLOW = ['HonestNoError', 'NoWedge', 'CloseCompletes']
 
 
 def write_cfg(name, consts, invariants=(), properties=(), view=True,
               spec='Spec', viewname='view'):
     d = dict(Chans='{1}', Reject='{}', MaxOps=3, Cuts=1, WithData='FALSE', ConnOps='TRUE',
-             FailReqOnClose='TRUE', ResolveOnConnCleanup='TRUE')
+             Win=0, FlowVariant='"none"', FailReqOnClose='TRUE', ResolveOnConnCleanup='TRUE')
     d.update(consts)
     lines = ['CONSTANTS'] + [f'  {k} = {v}' for k, v in d.items()]
     lines += [f'SPECIFICATION {spec}', 'CHECK_DEADLOCK FALSE']
@@ -52,7 +54,42 @@ def mc(ctx, tag, consts, invariants, expect=None, properties=(), spec='Spec',
     os.remove(os.path.join(SPEC, cfg))
 
 
+class Batch:
+    """Design-check runs collected and executed a few at a time (every TLC
+    start costs a JVM start; the runs are independent)."""
+
+    def __init__(self, ctx):
+        self.ctx, self.jobs = ctx, []
+
+    def mc(self, tag, consts, invariants, expect=None, properties=(),
+           spec='Spec', view=True):
+        self.jobs.append((f'{tag}_{os.getpid()}', consts, invariants, expect,
+                          properties, spec, view))
+
+    def run(self, par=5):
+        from concurrent.futures import ThreadPoolExecutor
+
+        def one(job):
+            tag, consts, invariants, _, properties, spec, view = job
+            cfg, _ = write_cfg(f'_{tag}.cfg', consts, invariants, properties,
+                               view, spec)
+            try:
+                return tlc.run(SPEC, 'Lifecycle', cfg, tag, workers=4,
+                               timeout=2400)
+            finally:
+                tlc.cleanup(tag)
+                os.remove(os.path.join(SPEC, cfg))
+
+        with ThreadPoolExecutor(par) as ex:
+            results = list(ex.map(one, self.jobs))
+        for job, res in zip(self.jobs, results):
+            self.ctx.require_tlc_ok(f'Lifecycle {job[0].rsplit("_", 1)[0]} '
+                                    f'{job[1]}', res, expect_violation=job[3])
+        self.jobs = []
+
+
 def sim(tag, consts, num, depth, seed):
+    tag = f'{tag}_{os.getpid()}'
     cfg, d = write_cfg(f'_{tag}.cfg', consts, view=False)
     out_dir = tlc.workdir(tag + '_out')
     res = tlc.run(SPEC, 'Lifecycle', cfg, tag, workers=4, timeout=600,
@@ -97,7 +134,7 @@ def timers(ctx, quick):
     grid = [(3, 1, 1), (3, 2, 1), (5, 2, 2)] if quick else \
         [(3, 1, 1), (3, 2, 1), (5, 2, 2), (4, 3, 1), (5, 1, 2), (7, 1, 3)]
     for i_, mx, d_ in grid:
-        tag = f'c09_ka_{i_}_{mx}_{d_}'
+        tag = f'c09_ka_{i_}_{mx}_{d_}_{os.getpid()}'
         # (asyncssh refuses keepalive_count_max = 0, so Max >= 1)
         _tcfg(f'_{tag}.cfg', dict(I=i_, Max=mx, D=d_,
                                   MaxTime=(mx + 2) * i_ + 6),
@@ -110,14 +147,15 @@ def timers(ctx, quick):
             ('c09_ka_sens', dict(ResetOnReplyOnly='FALSE'), 'NoFalseAlarm'),
             ('c09_ka_obs', {}, 'NotEarlyAfterAnyInput'),
             ('c09_ka_w', {}, 'NeverLost')):
+        name, tag = tag, f'{tag}_{os.getpid()}'
         _tcfg(f'_{tag}.cfg', consts, [inv])
         res = tlc.run(TSPEC, 'Keepalive', f'_{tag}.cfg', tag, timeout=900)
-        ctx.require_tlc_ok(f'Keepalive {tag}', res, expect_violation=inv)
+        ctx.require_tlc_ok(f'Keepalive {name}', res, expect_violation=inv)
         tlc.cleanup(tag)
         os.remove(os.path.join(TSPEC, f'_{tag}.cfg'))
     total = 0
     for i_, mx, d_ in grid:
-        tag = f'c09_kasim_{i_}_{mx}_{d_}'
+        tag = f'c09_kasim_{i_}_{mx}_{d_}_{os.getpid()}'
         d = _tcfg(f'_{tag}.cfg', dict(I=i_, Max=mx, D=d_,
                                       MaxTime=(mx + 2) * i_ + 6), view=False)
         out = tlc.workdir(tag + '_out')
@@ -191,33 +229,61 @@ def main(ctx):
         from checks import replay_mine
         return replay_mine.c09(ctx)
     quick = ctx.tier == 'quick'
+    import time
+    t0 = time.time()
+    parts = ctx.coverage.setdefault('seconds_per_part', {})
     # ---- 1. design check ----
-    mc(ctx, 'c09_mc1', dict(MaxOps=4), INVS)
-    mc(ctx, 'c09_mc2', dict(Chans='{1, 2}', Reject='{2}',
+    b = Batch(ctx)
+    b.mc('c09_mc1', dict(MaxOps=4), INVS)
+    b.mc('c09_mc2', dict(Chans='{1, 2}', Reject='{2}',
                             MaxOps=4 if quick else 5), INVS)
-    mc(ctx, 'c09_mcd', dict(MaxOps=5 if quick else 6, WithData='TRUE'), INVS)
+    b.mc('c09_mcd', dict(MaxOps=5 if quick else 6, WithData='TRUE'), INVS)
     if not quick:
-        mc(ctx, 'c09_mc3', dict(Chans='{1, 2}', MaxOps=5), INVS)
-        mc(ctx, 'c09_mcd2', dict(Chans='{1, 2}', MaxOps=5, WithData='TRUE'),
+        b.mc('c09_mc3', dict(Chans='{1, 2}', MaxOps=5), INVS)
+        b.mc('c09_mcd2', dict(Chans='{1, 2}', MaxOps=5, WithData='TRUE'),
            INVS)
-    mc(ctx, 'c09_live', dict(MaxOps=3), [], properties=['Terminates'],
+    b.mc('c09_live', dict(MaxOps=3), [], properties=['Terminates'],
        spec='LiveSpec', view=False)
-    mc(ctx, 'c09_sens', dict(MaxOps=2, ResolveOnConnCleanup='FALSE'),
+    b.mc('c09_sens', dict(MaxOps=2, ResolveOnConnCleanup='FALSE'),
        ['AllWaitersResolved'], expect='AllWaitersResolved')
-    mc(ctx, 'c09_sens2', dict(MaxOps=5, WithData='TRUE',
+    b.mc('c09_sens2', dict(MaxOps=5, WithData='TRUE',
                               FailReqOnClose='FALSE'),
        ['CreateDecided'], expect='CreateDecided')
-    mc(ctx, 'c09_w1', dict(MaxOps=1), ['NeverStarted'], expect='NeverStarted')
-    mc(ctx, 'c09_w2', dict(MaxOps=2), ['NeverErr'], expect='NeverErr')
-    mc(ctx, 'c09_w3', dict(MaxOps=5, WithData='TRUE'), ['NeverClosePending'],
+    # flow control: windows of Win chunks, data queued behind an exhausted
+    # window, EOF / CLOSE queued behind the data, WINDOW_ADJUST in every
+    # receive state
+    flow = dict(WithData='TRUE', Win=2, ConnOps='FALSE', Cuts=0)
+    b.mc('c09_flow', dict(flow, MaxOps=6 if quick else 7), INVS + FLOW)
+    b.mc('c09_flowc', dict(WithData='TRUE', Win=2, MaxOps=5 if quick else 6),
+       INVS + FLOW)
+    if not quick:
+        b.mc('c09_flow3', dict(flow, Win=3, MaxOps=7), INVS + FLOW)
+    b.mc('c09_sens3', dict(flow, MaxOps=6, FlowVariant='"adj_open_only"'),
+       ['HonestNoError'], expect='HonestNoError')
+    b.mc('c09_sens4', dict(flow, MaxOps=6, FlowVariant='"close_forgets"'),
+       ['CloseCompletes'], expect='CloseCompletes')
+    b.mc('c09_sens5', dict(flow, MaxOps=6,
+                              FlowVariant='"no_reply_closing"'),
+       ['CreateDecided'], expect='CreateDecided')
+    b.mc('c09_w4', dict(flow, MaxOps=6), ['NeverSendPending'],
+       expect='NeverSendPending')
+    b.mc('c09_w5', dict(flow, MaxOps=6), ['NeverAdjAfterEof'],
+       expect='NeverAdjAfterEof')
+    b.mc('c09_w1', dict(MaxOps=1), ['NeverStarted'], expect='NeverStarted')
+    b.mc('c09_w2', dict(MaxOps=2), ['NeverErr'], expect='NeverErr')
+    b.mc('c09_w3', dict(MaxOps=5, WithData='TRUE'), ['NeverClosePending'],
        expect='NeverClosePending')
+    b.run()
+    parts['design'] = round(time.time() - t0, 1)
     # ---- 2. replay ----
     n = 60 if quick else 600
     sims = [('one', dict(MaxOps=4), n, 45),
             ('two', dict(Chans='{1, 2}', Reject='{2}', MaxOps=5), n, 60),
             ('twoacc', dict(Chans='{1, 2}', MaxOps=6), n, 70),
             ('data', dict(MaxOps=7, WithData='TRUE'), n * 2, 70),
-            ('data2', dict(Chans='{1, 2}', MaxOps=8, WithData='TRUE'), n, 80)]
+            ('data2', dict(Chans='{1, 2}', MaxOps=8, WithData='TRUE'), n, 80),
+            ('flow', dict(flow, MaxOps=9), n, 90),
+            ('flowcut', dict(WithData='TRUE', Win=2, MaxOps=7), n // 2, 80)]
     total = 0
     for name, consts, num, depth in sims:
         traces, d = sim(f'c09_sim_{name}', consts, num, depth, ctx.seed + 3)
@@ -228,7 +294,7 @@ def main(ctx):
         for steps in traces:
             if len(steps) < 2:
                 continue
-            r = lifecycle.replay(steps, chans, reject)
+            r = lifecycle.replay(steps, chans, reject, win=d['Win'])
             r['l1'] = [b for b in r['l1']
                        if not b.startswith('DataBeforeClose')]   # C07's
             total += 1
@@ -242,7 +308,8 @@ def main(ctx):
                                                   for c in r['l1']})},
                               '; '.join(r['l1'][:4]),
                               replay={'kind': 'behaviour', 'config': name,
-                                      'script': r['script']})
+                                      'script': r['script'], 'chans': chans,
+                                      'reject': reject, 'win': d['Win']})
             elif r['diverged']:
                 ctx.divergence(f'{name}: {r["diverged"]} script='
                                f'{r["script"]}')
@@ -252,32 +319,39 @@ def main(ctx):
                               f'exception reached the event loop: '
                               f'{r["loop_exceptions"][0]}',
                               replay={'kind': 'behaviour', 'config': name,
-                                      'script': r['script']})
+                                      'script': r['script'], 'chans': chans,
+                                      'reject': reject, 'win': d['Win']})
     # state-covering scripts: exhaustive BFS with the script history hidden by
     # the VIEW makes TLC print ONE shortest behaviour for every distinct
     # reachable quiescent state; each is replayed and the implementation's
     # final state compared with that state
     deep = [('cover1', dict(MaxOps=5 if quick else 6, WithData='TRUE',
-                            ConnOps='FALSE', Cuts=0), 700 if quick else 6000),
+                            ConnOps='FALSE', Cuts=0), 400 if quick else 6000),
             ('cover2', dict(MaxOps=4 if quick else 5, WithData='TRUE'),
-             500 if quick else 5000),
+             450 if quick else 5000),
             ('cover3', dict(Chans='{1, 2}', Reject='{2}', MaxOps=4 if quick
                             else 5, WithData='TRUE', ConnOps='FALSE'),
-             400 if quick else 4000)]
+             350 if quick else 4000),
+            ('coverF', dict(flow, MaxOps=6 if quick else 7),
+             400 if quick else 8000)]
 
     def cls(script, st):
         return (str([st[k] for k in ('ss', 'rs', 'reading', 'createW',
-                                     'reqW', 'up', 'connClosed')]),
+                                     'reqW', 'up', 'connClosed')] +
+                    [[[n > 0 for n in v] for v in (st['sbufN'].values()
+                                                   if isinstance(st['sbufN'], dict)
+                                                   else st['sbufN'])]]),
                 str(script[-1]))
 
     for name, consts, keep in deep:
-        cfg, d = write_cfg(f'_c09_{name}.cfg', consts,
+        tg = f'c09_{name}_{os.getpid()}'
+        cfg, d = write_cfg(f'_{tg}.cfg', consts,
                            invariants=['EmitScript'], view=True,
                            viewname='viewL')
-        scripts, res = tlc.bfs_scripts(SPEC, 'Lifecycle', cfg, f'c09_{name}')
+        scripts, res = tlc.bfs_scripts(SPEC, 'Lifecycle', cfg, tg)
         ctx.require_tlc_ok(f'Lifecycle {name} (script emission) {consts}',
                            res)
-        tlc.cleanup(f'c09_{name}')
+        tlc.cleanup(tg)
         os.remove(os.path.join(SPEC, cfg))
         ctx.require(len(scripts) > 20, f'too few scripts for {name}')
         chans = [int(x) for x in d['Chans'].strip('{}').split(',')]
@@ -291,9 +365,11 @@ def main(ctx):
             seen.add(k)
         ctx.coverage.setdefault('state_classes_covered', 0)
         ctx.coverage['state_classes_covered'] += len(first)
+        ctx.coverage[f'scripts_{name}'] = (len(first), len(scripts))
         for script, final in (first + rest)[:keep]:
             steps = [(lbl, None) for lbl in script]
-            r = lifecycle.replay(steps, chans, reject, final=final)
+            r = lifecycle.replay(steps, chans, reject, final=final,
+                                 win=d['Win'])
             r['l1'] = [b for b in r['l1']
                        if not b.startswith('DataBeforeClose')]   # C07's
             total += 1
@@ -304,11 +380,13 @@ def main(ctx):
                                                   for c in r['l1']})},
                               '; '.join(r['l1'][:4]),
                               replay={'kind': 'script', 'config': name,
-                                      'script': r['script']})
+                                      'script': r['script'], 'chans': chans,
+                                      'reject': reject, 'win': d['Win']})
             elif r['diverged']:
                 ctx.divergence(f'{name}: {r["diverged"]} script='
                                f'{r["script"]}')
     ctx.traces_validated(total)
+    parts['replay'] = round(time.time() - t0, 1)
     # ---- 3. crash points ----
     os.makedirs(tlc.WORK, exist_ok=True)
     total_points = 0
@@ -319,10 +397,18 @@ def main(ctx):
         base = crashpoints.Run(workdir=tlc.WORK, scenario=scen,
                                server_kw=skw).run()
         bad = crashpoints.judge(base, False)
-        ctx.require(not bad, f'fault-free scenario {sname} misbehaves: {bad}')
-        ctx.require(base['log'][-1:] == ['end'],
-                    f'fault-free scenario {sname} did not finish: '
-                    f'{base["log"][-3:]}')
+        if not bad and base['log'][-1:] != ['end']:
+            bad = [f'FaultFreeCompletes: the scenario stopped at '
+                   f'{base["log"][-3:]}']
+        if bad:
+            # two honest endpoints, nothing injected: whatever goes wrong here
+            # is the implementation (an operation that hangs or fails)
+            ctx.violation({'module': 'CrashPoints', 'scenario': sname,
+                           'kind': 'fault-free'},
+                          f'{sname}: without any fault: ' + '; '.join(bad[:3]),
+                          replay={'kind': 'crashpoint', 'k': 0, 'fault': None,
+                                  'scenario': sname})
+            continue
         N = base['nwrites']
         total_points += N
         step = qstep if quick else 1
@@ -355,8 +441,10 @@ def main(ctx):
                                           'scenario': sname, 'fault': kind})
     N = total_points
     ctx.coverage['crash_points'] = N
+    parts['crashpoints'] = round(time.time() - t0, 1)
     # ---- 4. silent peers: keepalive and login timeout (specs/Timers) ----
     timers(ctx, quick)
+    parts['timers'] = round(time.time() - t0, 1)
     ctx.assumptions += [
         'both endpoints are asyncssh (a peer that never answers CLOSE while '
         'the connection stays up is outside the property)',
